@@ -201,12 +201,14 @@ Proof.
     destruct (validate c (mt st3)) as [|k a|s] eqn:Ev; [exact HG3|exact HG3|].
     exfalso. apply (validate_total c (mt st3) Hwf Happ) with (s := s); [apply HG3|exact Ev].
   - destruct (is_set s_ignore_errors c); [|exact Hparsed].
-    assert (He : safe (G c (P c toks) (V c toks)) (G c (P c toks) (V c toks)) (add_env c st)) by (eapply add_env_safe; eassumption).
-    destruct (add_env c st) as [s1|e1 s1|x1]; cbn in He; [| |contradiction].
-    + assert (Hd : safe (G c (P c toks) (V c toks)) (G c (P c toks) (V c toks)) (add_defaults c s1)) by (eapply add_defaults_safe; eassumption).
-      destruct (add_defaults c s1) as [s2|e2 s2|x2]; cbn in Hd; [exact Hd|exact Hd|contradiction].
-    + assert (Hd : safe (G c (P c toks) (V c toks)) (G c (P c toks) (V c toks)) (add_defaults c s1)) by (eapply add_defaults_safe; eassumption).
-      destruct (add_defaults c s1) as [s2|e2 s2|x2]; cbn in Hd; [exact Hd|exact Hd|contradiction].
+    (* repaired order: the pending occurrence is stored first (its error, if any, is dropped) *)
+    assert (Hr : safe (G c (P c toks) (V c toks)) (G c (P c toks) (V c toks)) (resolve_pending c st)).
+    { eapply safe_weaken; [eapply resolve_pending_safe; eassumption|intros a Ha; exact (proj1 Ha)|auto]. }
+    destruct (resolve_pending c st) as [s0|e0 s0|x0]; cbn in Hr; [| |contradiction].
+    all: assert (He : safe (G c (P c toks) (V c toks)) (G c (P c toks) (V c toks)) (add_env c s0)) by (eapply add_env_safe; eassumption).
+    all: destruct (add_env c s0) as [s1|e1 s1|x1]; cbn in He; [| |contradiction].
+    all: assert (Hd : safe (G c (P c toks) (V c toks)) (G c (P c toks) (V c toks)) (add_defaults c s1)) by (eapply add_defaults_safe; eassumption).
+    all: destruct (add_defaults c s1) as [s2|e2 s2|x2]; cbn in Hd; [exact Hd|exact Hd|contradiction].
 Qed.
 End Tree.
 
